@@ -202,6 +202,19 @@ fn run_numbers(i: u64, trace: bool) -> CaseResult {
             // verify with a huge timeout on an instance that is in the cache
             h.verify("fine._ok._udp.local.".into(), Duration::from_secs(u64::MAX / 2)).is_ok()
         }
+        13..=24 => {
+            // TXT property sizes around the 255-byte limit of one string: key + '=' + value of
+            // 254 / 255 / 256 bytes (text and non-UTF-8 values), and a key alone of 255 / 256 bytes
+            let k = i - 13;
+            let total = [254usize, 255, 256][(k % 3) as usize];
+            let prop: mdns_sd::TxtProperty = match k / 3 {
+                0 => ("key", "v".repeat(total - 4).as_str()).into(),
+                1 => mdns_sd::TxtProperty::from(("key", vec![0xFFu8; total - 4].as_slice())),
+                2 => mdns_sd::TxtProperty::from(("k".repeat(total - 1).as_str(), "")),
+                _ => mdns_sd::TxtProperty::from("k".repeat(total).as_str()),
+            };
+            ServiceInfo::new("_t._tcp.local.", "txt", "txthost.local.", "10.0.0.5", 1, vec![prop]).map(|s| h.register(s).is_ok()).unwrap_or(false)
+        }
         _ => h.set_service_name_len_max(30).is_ok(),
     }));
     match r {
@@ -433,8 +446,8 @@ pub fn check(tier: &str) -> i32 {
     rep.run_part(&api, Duration::from_secs(if thorough { 1800 } else { 50 }));
     let nums = FnPart {
         name: "api-numbers".into(),
-        rule: "extreme numbers for every numeric argument (length limit 0/255, interval 1/u32::MAX, verify and resolver timeouts 0/MAX, ports 0/65535, 60 kB of TXT data, bad address string)".into(),
-        n: 13,
+        rule: "extreme numbers for every numeric argument (length limit 0/255, interval 1/u32::MAX, verify and resolver timeouts 0/MAX, ports 0/65535, 60 kB of TXT data, TXT properties of 254 / 255 / 256 bytes (text, non-UTF-8, empty value, key only), bad address string)".into(),
+        n: 25,
         describe: Box::new(|i| format!("numbers#{i}")),
         run: Box::new(|i, tr| run_numbers(i, tr)),
     };
